@@ -123,8 +123,8 @@ Proof.
   - intros e _. lia.
   - reflexivity.
   - constructor; [exact Hst0|exact Hinit| |].
-    + intros k tk s Hk Hbl. destruct (Hun0 k tk Hk) as [Hc _]. rewrite (blocked_sleep_cur _ _ Hbl) in Hc. discriminate.
-    + intros k k' tk tk' s s' Hk _ Hbl. destruct (Hun0 k tk Hk) as [Hc _]. rewrite (blocked_sleep_cur _ _ Hbl) in Hc. discriminate.
+    + intros k tk s Hk Hbl. destruct (Hun0 k tk Hk) as [Hc _]. unfold held in Hbl. rewrite Hc in Hbl. destruct Hbl.
+    + intros k k' tk tk' s s' Hk _ Hbl. destruct (Hun0 k tk Hk) as [Hc _]. unfold held in Hbl. rewrite Hc in Hbl. destruct Hbl.
   - lia.
   - intros m' Hm'. exists 0. split; [lia|].
     match goal with |- context [drv_of ?W m'] =>
@@ -138,8 +138,9 @@ Proof.
         unfold msg_of in Ep. lia. }
       rewrite Hnil. constructor.
     + constructor.
-      * intros k tk s Hk Hbl. destruct (Hun0 k tk Hk) as [Hc _]. rewrite (blocked_sleep_cur _ _ Hbl) in Hc. discriminate.
+      * intros k tk s Hk Hbl. destruct (Hun0 k tk Hk) as [Hc _]. unfold held in Hbl. rewrite Hc in Hbl. destruct Hbl.
       * intros d id [].
+      * intros d. constructor.
   - apply start_tasks_nodup.
   - intros k Hk. apply start_tasks_in in Hk. destruct Hk as (j & tk & -> & Hj & Hm & Hs). cbn [Nat.add].
     exists tk. split; [exact Hj|]. split; [exact (Hun0 j tk Hj)|]. split; assumption.
